@@ -161,6 +161,8 @@ pub struct SchedState {
     rng: Rng,
     idx: usize,
     burst: u32,
+    flush_rng: Rng,
+    flush_burst: u32,
 }
 
 pub enum Xfer {
@@ -174,7 +176,23 @@ impl SchedState {
             Sched::Rand { seed, .. } | Sched::Intr { seed, .. } => *seed,
             _ => 0,
         };
-        SchedState { sched: s.clone(), rng: Rng::new(seed), idx: 0, burst: 0 }
+        SchedState { sched: s.clone(), rng: Rng::new(seed), idx: 0, burst: 0, flush_rng: Rng::new(seed ^ 0xf1a5_4f1a_5400_77aa), flush_burst: 0 }
+    }
+
+    /// whether this flush of the destination reports `Interrupted` (Intr schedules only; bursts up to 2;
+    /// own PRNG stream, so that the transfer lengths do not depend on how often flush is called)
+    pub fn next_flush_interrupted(&mut self) -> bool {
+        match &self.sched {
+            Sched::Intr { .. } => {
+                if self.flush_burst < 2 && self.flush_rng.chance(1, 2) {
+                    self.flush_burst += 1;
+                    return true;
+                }
+                self.flush_burst = 0;
+                false
+            }
+            _ => false,
+        }
     }
 
     /// n > 0: bytes the caller offers/asks
@@ -352,6 +370,12 @@ impl Write for SimSink {
             if s.stored >= d {
                 return Err(io::Error::other("sim: device gone"));
             }
+        }
+        if s.sched.next_flush_interrupted() {
+            s.stats.interrupted += 1;
+            fired("sink_flush_interrupted");
+            log_seam(b'i', 0, s.stored as u64);
+            return Err(io::Error::new(io::ErrorKind::Interrupted, "sim: flush interrupted"));
         }
         let l = s.stored;
         s.flush_marks.push(l);
